@@ -19,7 +19,9 @@ EXTENDS Machine, IOUtils
 
 CONSTANT CheckObs,   \* TRUE: validation.  FALSE: diagnosis - follow the calls, print where
                      \* the logged outcome / observers differ from the specification
-         ObsFields   \* the observers this check compares (those its property speaks of); {} = all
+         ObsFields,  \* the observers this check compares (those its property speaks of); {} = all
+         MaskByHas   \* TRUE (C03): label observers are compared only for the pairs on whose
+                     \* edge-ness the real object and the specification agree
 
 Tr == ndJsonDeserialize(IOEnv.TRACE)
 
@@ -38,7 +40,16 @@ TReset == /\ Tr[l].c.op = "reset"
 \* the logged projection carries exactly the compared observers (plus "inconsistent" when the
 \* harness found the real observers inconsistent with each other - which never matches)
 Proj(o) == IF ObsFields = {} THEN o ELSE [f \in (ObsFields \cap DOMAIN o) |-> o[f]]
-Differs(ev, r) == r.out # ev.out \/ Proj(Obs(r.g)) # ev.obs
+LabelFields == {"lab", "labd", "hasl"}
+MaskedEq(o, e) ==        \* o: specification, e: logged
+    /\ DOMAIN Proj(o) = DOMAIN e
+    /\ \A f \in DOMAIN e \ (LabelFields \cup {"has"}) : Proj(o)[f] = e[f]
+    /\ \A i \in 1 .. o.n : \A j \in 1 .. o.n :
+          (o.has[i][j] = e.has[i][j]) =>
+             /\ o.lab[i][j] = e.lab[i][j] /\ o.labd[i][j] = e.labd[i][j]
+             /\ \A lb \in 1 .. 3 : o.hasl[lb][i][j] = e.hasl[lb][i][j]
+Differs(ev, r) == r.out # ev.out \/ (IF MaskByHas /\ "n" \in DOMAIN ev.obs /\ ev.obs.n = r.g.n
+                                       THEN ~MaskedEq(Obs(r.g), ev.obs) ELSE Proj(Obs(r.g)) # ev.obs)
 
 TStep == /\ Tr[l].c.op # "reset"
          /\ LET ev == Tr[l]
